@@ -228,7 +228,7 @@ func (g *gen) record(kind, owner string, names []string, d docResult, tr []strin
 	return es
 }
 
-var scalarTypes = []string{"int", "string", "bool", "float64", "[]byte", "map[string]int"}
+var scalarTypes = []string{"int", "string", "bool", "float64", "[]byte", "map[string]int", "func(e int, s string) error", "struct{ X, Y int }", "func() (n int, err error)", "interface{ M(a int) }"}
 
 func (g *gen) fields(owner string) {
 	n := 1 + g.r.Intn(6)
@@ -285,7 +285,7 @@ func (g *gen) file1(pkg, file string, decls int) string {
 			}
 			tr, trl, trs := g.trailing()
 			n := g.name("T")
-			g.emit("type " + n + " " + scalarTypes[g.r.Intn(4)] + tr)
+			g.emit("type " + n + " " + scalarTypes[g.r.Intn(len(scalarTypes))] + tr)
 			g.record("type", "", []string{n}, d, trl, trs, "ungrouped")
 			g.prevTrailing = trs
 		case 1: // struct type with fields
@@ -327,7 +327,7 @@ func (g *gen) file1(pkg, file string, decls int) string {
 				}
 				tr, trl, trs := g.trailing()
 				n := g.name("G")
-				g.emit("\t" + n + " " + scalarTypes[g.r.Intn(4)] + tr)
+				g.emit("\t" + n + " " + scalarTypes[g.r.Intn(len(scalarTypes))] + tr)
 				g.record("type", "", []string{n}, d, trl, trs, fmt.Sprintf("grouped%d", min(j, 2)))
 				g.prevTrailing = trs
 			}
